@@ -7,6 +7,7 @@ import (
 	"go/types"
 	"math"
 	"strings"
+	"sync"
 
 	"golang.org/x/tools/go/ssa"
 )
@@ -69,6 +70,7 @@ type Exec struct {
 	curInstr  ssa.Instruction
 	stack     []*ssa.Function
 	quotSplits int
+	pcDirty   bool
 
 	globals   map[*ssa.Global]*Value
 	initDone  map[*ssa.Package]bool
@@ -121,6 +123,7 @@ func shortPath(f string) string {
 // ---------- path condition, branching ----------
 
 func (e *Exec) assertT(t *Term) {
+	e.pcDirty = true
 	e.sol.Send("(assert " + t.Name + ")")
 }
 
@@ -1288,7 +1291,7 @@ func hashKey(k Value) (interface{}, bool) {
 			return ifaceKey{}, true
 		}
 		if in, ok := hashKey(k.V); ok {
-			return ifaceKey{t: k.T.String(), v: in}, true
+			return ifaceKey{t: typeStr(k.T), v: in}, true
 		}
 	}
 	return nil, false
@@ -1305,22 +1308,22 @@ func (e *Exec) mapFind(m *Map, key Value) int {
 		return -1
 	}
 	if hk, ok := hashKey(key); ok && m.idx != nil {
-		allConc := true
 		if i, ok := m.idx[hk]; ok {
 			return i
+		}
+		if m.nsym == 0 {
+			return -1
 		}
 		for i, k := range m.Keys {
 			if k == nil {
 				continue
 			}
 			if _, c := hashKey(k); !c {
-				allConc = false
 				if e.branch(e.equals(k, key)) {
 					return i
 				}
 			}
 		}
-		_ = allConc
 		return -1
 	}
 	for i, k := range m.Keys {
@@ -1346,6 +1349,8 @@ func (e *Exec) mapSet(m *Map, key, val Value) {
 	m.Vals = append(m.Vals, val)
 	if hk, ok := hashKey(key); ok {
 		m.idx[hk] = len(m.Keys) - 1
+	} else {
+		m.nsym++
 	}
 }
 
@@ -1356,6 +1361,8 @@ func (e *Exec) mapDelete(m *Map, key Value) {
 	if i := e.mapFind(m, key); i >= 0 {
 		if hk, ok := hashKey(m.Keys[i]); ok {
 			delete(m.idx, hk)
+		} else {
+			m.nsym--
 		}
 		m.Keys[i] = nil
 		m.Vals[i] = nil
@@ -1601,4 +1608,15 @@ func (e *Exec) divSym(op token.Token, x, y Int) (Int, bool) {
 		acc = e.intBin(token.ADD, acc, y)
 	}
 	panic(unsupported("symbolic division: quotient above 64"))
+}
+
+var typeStrCache sync.Map
+
+func typeStr(t types.Type) string {
+	if s, ok := typeStrCache.Load(t); ok {
+		return s.(string)
+	}
+	s := t.String()
+	typeStrCache.Store(t, s)
+	return s
 }
